@@ -363,12 +363,17 @@ func run(c *core.Ctx) {
 		1:             {"true", "Int.bear.new(1)", "(true * 1)", "[5].len"},
 		7:             {"Int.bear.new(7)", "(true * 7)", `"7".I`},
 		-3:            {"Int.bear.new(-3)", "(true * -3)", `"-3".I`},
-		math.MaxInt64: {"Int.bear.new(9223372036854775807)", "(true * 9223372036854775807)"},
-		math.MinInt64: {"(false - 9223372036854775807 - 1)", "Int.bear.new(-9223372036854775807 - 1)"},
+		math.MaxInt64: {"Int.bear.new(9223372036854775807)", "(true * 9223372036854775807)", "9223372036854775807e0", "0x7fffffffffffffff", "0b" + strings.Repeat("1", 63)},
+		// values above 2^53 written in exponent / radix form (a float64 cannot hold them)
+		9007199254740993:    {"9007199254740993e0", "900719925474099300e-2", "0x20000000000001"},
+		123456789012345700:  {"1234567890123457e2", "12345678901234570e1"},
+		900719925474099301:  {"900719925474099301e0", "0o62000000000000000145"},
+		9000000000000000000: {"9e18", "90e17", "9_000e15"},
+		math.MinInt64:       {"(false - 9223372036854775807 - 1)", "Int.bear.new(-9223372036854775807 - 1)"},
 	}
-	plain := []int64{math.MinInt64, -7, -1, 0, 1, 6, math.MaxInt64}
+	plain := []int64{math.MinInt64, -7, -1, 0, 1, 6, math.MaxInt64, 9007199254740992, 100}
 	k = 0
-	for _, v := range []int64{0, 1, 7, -3, math.MaxInt64, math.MinInt64} {
+	for _, v := range []int64{0, 1, 7, -3, math.MaxInt64, math.MinInt64, 9007199254740993, 123456789012345700, 900719925474099301, 9000000000000000000} {
 		for _, sp := range spell[v] {
 			k++
 			if !c.Mine(k) {
